@@ -144,7 +144,7 @@ def binop(I, op, a, b, node, inplace=False):
                     raise Unsupported("pow")
             # symbolic exponent: uninterpreted pow (only congruence is used, A-REAL)
             I.ctx.result.assumptions.add("A-REAL: x ** y with a symbolic exponent is uninterpreted (fresh constant per argument pair)")
-            key = ("pow", sym.zreal(a).get_id(), sym.zreal(b).get_id())
+            key = ("pow", I.ctx.tid(sym.zreal(a)), I.ctx.tid(sym.zreal(b)))
             if key not in I.ctx.trig_cache:
                 I.ctx.trig_cache[key] = I.ctx.fresh("pow", "Real")
             return I.ctx.trig_cache[key]
@@ -975,7 +975,7 @@ def _log(I, x, *base):
     if I.ctx.branch(sym.num_cmp("<=", x, 0), None):
         raise PyRaise("ValueError", "math domain error")
     zx = sym.zreal(x)
-    key = ("log", zx.get_id())
+    key = ("log", I.ctx.tid(zx))
     l = I.ctx.uninterp("log_u", x)
     if key not in I.ctx.trig_cache:
         I.ctx.trig_cache[key] = l
